@@ -14,7 +14,7 @@ import gen
 import preds
 from driver import Driver
 from lockstep import run_real, lockstep, free_run
-from real import snapshot
+from real import snapshot, Unsupported
 
 _DRV = None
 MIXED_SAFE = {"C03", "C07", "C14"}
@@ -88,10 +88,17 @@ def fingerprint(spec, params):
 def evaluate(spec, params, prop_ids, want_lockstep=True):
     """run one case on the real code and the model; returns a JSON-able result dict"""
     res = dict(fp=fingerprint(spec, params), dis=[], viol=[], exc=None, steps=0, stats={}, feats={})
-    project, ix, model, pre, snaps, exc = run_real(spec, params)
-    if spec.get("decimal"):
-        model["decimal"] = True
-    final = snapshot(project, ix)
+    try:
+        project, ix, model, pre, snaps, exc = run_real(spec, params)
+        if spec.get("decimal"):
+            model["decimal"] = True
+        final = snapshot(project, ix)
+    except Unsupported as e:
+        # the real objects are in a state the model cannot even represent (e.g. a resource that lists a task of
+        # another project): no correspondence for this case — reported as a disagreement in every field
+        res["dis"].append(dict(phase="exception", fields=["*"], time=None, detail="state outside the model: %s" % e))
+        res["exc"] = "Unsupported: %s" % e
+        return res
     res["steps"] = sum(1 for b, _ in snaps if b == "recorded")
     res["exc"] = None if exc is None else "%s: %s" % (type(exc).__name__, exc)
     run = dict(pre=pre, snaps=snaps, final=final, exc=res["exc"])
